@@ -7,4 +7,6 @@ CONSTANTS
   LMaxCap = 2
 INVARIANT Transparent
 INVARIANT FilledUpper
+INVARIANT OwnSlot
+INVARIANT AllTransparent
 CHECK_DEADLOCK FALSE
